@@ -141,7 +141,10 @@ class VQESolver:
                 if self.ansatz in [BuiltInAnsatze.QCC, BuiltInAnsatze.ILC, BuiltInAnsatze.QMF]:
                     raise ValueError("Circuit reference state is not supported for QCC or QMF")
             elif self.ref_state is not None:
-                self.ansatz_options["reference_state"] = "zero"
+                # QCC, ILC and QMF encode the reference configuration in their QMF parameters (their only supported
+                # reference_state keyword is "HF"); every other ansatz starts from |0> after the reference circuit.
+                if self.ansatz not in [BuiltInAnsatze.QCC, BuiltInAnsatze.ILC, BuiltInAnsatze.QMF]:
+                    self.ansatz_options["reference_state"] = "zero"
                 if self.ansatz in [BuiltInAnsatze.QCC, BuiltInAnsatze.ILC]:
                     self.ansatz_options["qmf_var_params"] = agen._qubit_mf.init_qmf_from_vector(self.ref_state, self.qubit_mapping, self.up_then_down)
                     self.ref_state = None
